@@ -311,7 +311,7 @@ func main() {
 			tok := jwt.New()
 			_ = tok.Set("sub", "tester")
 			minted := time.Now()
-			_ = tok.Set(jwt.ExpirationKey, minted.Add(2*time.Second))
+			_ = tok.Set(jwt.ExpirationKey, minted.Add(3*time.Second))
 			signed, err := jwt.Sign(tok, jwa.HS256, []byte(secret))
 			if err != nil {
 				panic(err)
@@ -336,7 +336,7 @@ func main() {
 					hutil.JSONLine(w, map[string]interface{}{"kind": "case", "c": c, "round": "short_lived_first_use"})
 				}
 			}
-			if d := time.Until(minted.Add(3200 * time.Millisecond)); d > 0 {
+			if d := time.Until(minted.Add(4200 * time.Millisecond)); d > 0 {
 				time.Sleep(d)
 			}
 			expired := &Token{Kind: "jwt", Alg: "HS256", KeyOK: true, Exp: "past", Nbf: "absent", Raw: short.Raw}
